@@ -185,3 +185,11 @@ Print Assumptions C20_leaf_is_printable_ascii.
 Theorem C20_leaf_is_printable_ascii_domain : forall b, Leaf.L_strings_is_printable_ascii_dom b = true <-> b < 256.
 Proof. exact LeafStrings.is_printable_ascii_dom. Qed.
 Print Assumptions C20_leaf_is_printable_ascii_domain.
+
+(* the source places the binders of the generated leaf definitions stand for (third audit, F2) *)
+From Coq Require Import List String.
+Import ListNotations.
+Theorem C20_leaf_reads_strings :
+  Leaf.L_strings_is_printable_ascii_args = ["byte : u8"%string].
+Proof. exact LeafStrings.leaf_reads_strings. Qed.
+Print Assumptions C20_leaf_reads_strings.
